@@ -40,8 +40,13 @@ impl ReturnableStructPath {
                           ReturnableStructDef::OutStruct(s) => (s.fields@.len() == 0) == spec_no_fields(*self, tcx) && s.attrs.disable == spec_disabled(*self, tcx) }
     { unimplemented!() }
 }
-// hir::Type<OutputOnly>: only the Struct variant is inspected here
-pub enum Type { Struct(ReturnableStructPath), Other(u8) }
+// hir::Type<OutputOnly>: the Struct variant is inspected; enums are named so that a rule about them can be stated (a bridge enum is
+// #[repr(C)]: never zero-sized, whatever its number of variants)
+#[verifier::external_body] pub struct Variant { x: u8 }
+pub struct EnumDef { pub variants: Vec<Variant> }
+pub struct EnumPath { pub tcx_id: u32 }
+impl EnumPath { #[verifier::external_body] pub fn resolve<'tcx>(&self, tcx: &'tcx TypeContext) -> &'tcx EnumDef { unimplemented!() } }
+pub enum Type { Struct(ReturnableStructPath), Enum(EnumPath), Other(u8) }
 pub mod hir { pub type OutType = super::Type; }
 
 // ---- E6t: the C text carried as what it declares
